@@ -1,6 +1,7 @@
 package mon
 
 import (
+	"encoding/json"
 	"fmt"
 	"math"
 	"math/big"
@@ -189,6 +190,13 @@ func c18Model(r *fw.Rand, d int, layouts []geom.Layout, valid bool) *model.G {
 	return gen.Shape(r, gen.Kinds6[r.Intn(6)], layout, gen.SmallInt, so)
 }
 
+// encoder and option values that live as long as the worker process
+var (
+	c18Encoders   [16]*wkt.Encoder
+	c18DigitsOpts [16]*geojson.EncodeGeometryOption
+	c18BBoxOpt    *geojson.EncodeGeometryOption
+)
+
 func c18WKT(c *fw.Ctx, idx int) {
 	r := c.R
 	d := idx % 16
@@ -203,6 +211,35 @@ func c18WKT(c *fw.Ctx, idx int) {
 	c.Eval(1)
 	if err != nil {
 		c.Fail("marshal-error", "wkt.Marshal with %d digits failed: %v", d, err)
+		return
+	}
+	// an Encoder value kept for the life of the process gives the same text,
+	// also right after an Encode on it that failed part-way
+	if c18Encoders[d] == nil {
+		c18Encoders[d] = wkt.NewEncoder(wkt.EncodeOptionWithMaxDecimalDigits(d))
+	}
+	enc := c18Encoders[d]
+	if r.Chance(1, 4) {
+		c.Guard("panic", func() {
+			// fails before anything is written (unsupported layout of the whole) ...
+			bad := geom.NewGeometryCollection().MustPush(geom.NewPointFlat(geom.XY, []float64{7.8, 8.9}), geom.NewLineStringFlat(geom.Layout(5), []float64{1, 2, 3, 4, 5, 6, 7, 8, 9, 10}))
+			if r.Bool() {
+				// ... or after the first member has been written (a later member without layout)
+				bad = geom.NewGeometryCollection().MustPush(geom.NewPointFlat(geom.XY, []float64{7.8, 8.9}), geom.NewLineString(geom.NoLayout))
+			}
+			if _, e := enc.Encode(bad); e != nil {
+				c.Count("failed_encode_on_the_kept_encoder")
+			}
+		})
+	}
+	var text2 string
+	if c.Guard("panic", func() { text2, err = enc.Encode(t) }) {
+		return
+	}
+	c.Eval(1)
+	c.Count("kept_encoder_compared")
+	if err != nil || text2 != text {
+		c.Fail("encoder-differs", "an Encoder with %d digits used before gave err=%v and %s, wkt.Marshal gave %s", d, err, clipStr(text2, 300), clipStr(text, 300))
 		return
 	}
 	c.SetInput(map[string]any{"format": "wkt", "digits": d, "geometry": g.String(), "output": clipStr(text, 600)})
@@ -245,10 +282,20 @@ func c18GeoJSON(c *fw.Ctx, idx int) {
 	withBBox := !g.IsEmpty() && r.Chance(2, 3)
 	c.SetInput(map[string]any{"format": "geojson", "digits": d, "bbox": withBBox, "geometry": g.String()})
 	t := g.BuildFlat()
-	optsA := []geojson.EncodeGeometryOption{geojson.EncodeGeometryWithMaxDecimalDigits(d)}
+	// option values are created once and used for every call of the process (A),
+	// or created for the call (B)
+	if c18DigitsOpts[d] == nil {
+		o := geojson.EncodeGeometryWithMaxDecimalDigits(d)
+		c18DigitsOpts[d] = &o
+	}
+	if c18BBoxOpt == nil {
+		o := geojson.EncodeGeometryWithBBox()
+		c18BBoxOpt = &o
+	}
+	optsA := []geojson.EncodeGeometryOption{*c18DigitsOpts[d]}
 	optsB := []geojson.EncodeGeometryOption{geojson.EncodeGeometryWithMaxDecimalDigits(d)}
 	if withBBox {
-		optsA = append(optsA, geojson.EncodeGeometryWithBBox())
+		optsA = append(optsA, *c18BBoxOpt)
 		optsB = append([]geojson.EncodeGeometryOption{geojson.EncodeGeometryWithBBox()}, optsB...)
 	}
 	var a, b []byte
@@ -263,9 +310,33 @@ func c18GeoJSON(c *fw.Ctx, idx int) {
 	}
 	c.SetInput(map[string]any{"format": "geojson", "digits": d, "bbox": withBBox, "geometry": g.String(), "output": clipStr(string(a), 600)})
 	heldA := string(a)
-	c.Guard("panic", func() { geojson.Marshal(c18Model(r, d, c18JSONLayouts, false).BuildFlat(), optsA...) })
+	// an encoded Geometry value held while another geometry is encoded with the
+	// same option values must still marshal to the same document
+	var heldG *geojson.Geometry
+	var heldB []byte
+	if c.Guard("panic", func() {
+		heldG, err = geojson.Encode(t, optsA...)
+		other := c18Model(r, d, c18JSONLayouts, false)
+		oo := optsA
+		if other.IsEmpty() {
+			oo = optsA[:1]
+		}
+		geojson.Marshal(other.BuildFlat(), oo...)
+		geojson.Encode(other.BuildFlat(), oo...)
+		if err == nil {
+			heldB, err = json.Marshal(heldG)
+		}
+	}) {
+		return
+	}
+	c.Eval(1)
 	if string(a) != heldA {
 		c.Fail("result-invalidated", "the slice returned by geojson.Marshal changed after a later Marshal call")
+		return
+	}
+	c.Count("held_encoded_geometry_rechecked")
+	if err != nil || string(heldB) != heldA {
+		c.Fail("result-invalidated", "a Geometry returned by geojson.Encode, marshalled after another Encode with the same option values, gives err=%v and %s; Marshal gave %s", err, clipStr(string(heldB), 300), clipStr(heldA, 300))
 		return
 	}
 	if string(a) != string(b) {
